@@ -40,6 +40,8 @@ type Hashable interface {
 type HashMap[T Hashable, ValType any] struct {
 	hashmap  map[uint64]*node[T, ValType]
 	nodePool *syncx.Pool[*node[T, ValType]]
+	// size 是键值对的数量（同一个哈希值下可能有多个键）
+	size int64
 }
 
 func (m *HashMap[T, ValType]) Put(key T, val ValType) error {
@@ -49,6 +51,7 @@ func (m *HashMap[T, ValType]) Put(key T, val ValType) error {
 		hash = key.Code()
 		newNode := m.newNode(key, val)
 		m.hashmap[hash] = newNode
+		m.size++
 		return nil
 	}
 	pre := root
@@ -62,6 +65,7 @@ func (m *HashMap[T, ValType]) Put(key T, val ValType) error {
 	}
 	newNode := m.newNode(key, val)
 	pre.next = newNode
+	m.size++
 	return nil
 }
 
@@ -141,6 +145,7 @@ func (m *HashMap[T, ValType]) Delete(key T) (ValType, bool) {
 			val := root.value
 			root.formatting()
 			m.nodePool.Put(root)
+			m.size--
 			return val, true
 		}
 		num++
@@ -160,5 +165,5 @@ func (n *node[T, ValType]) formatting() {
 }
 
 func (m *HashMap[T, ValType]) Len() int64 {
-	return int64(len(m.hashmap))
+	return m.size
 }
